@@ -248,7 +248,8 @@ class Exec(HeapMixin, SpecEvalMixin, ExprMixin, StmtMixin, CallMixin):
     def _verify(self, c: Contract, fi: FuncInfo, res: FunctionResult):
         self.cur_module = fi.module
         self.cur_func_name = self.short_name(fi)
-        self.active_interference = tuple(getattr(c, "interference", ()) or ())
+        self.active_interference = tuple((i[0], i[1]) for i in (getattr(c, "interference", ()) or ()))
+        self.interference_kinds = {(i[0], i[1]): {"kind": i[2]} for i in (getattr(c, "interference", ()) or ()) if len(i) > 2}
         st = self.initial_state(fi)
         self._boot_state = st
         for gname, gkind in self.reg.globals.items():
